@@ -30,6 +30,7 @@ fn main() {
         "linsock" => mcv::linsock::run_linsock(&ctx),
         "timer" => mcv::linsock::run_timer(&ctx),
         "pipe" => mcv::l3::run_c12(&ctx),
+        "flushorder" => mcv::l3::run_flush_order(&ctx),
         "toolarge" => mcv::l3::run_c13(&ctx),
         "sockframe" => mcv::l3::run_sock_frames(&ctx),
         "frame" => mcv::frame::run_c09(&ctx),
